@@ -338,6 +338,20 @@ def check(ctx):
             continue
         for cores in [1, rng.choice(multi)] if ctx.quick else [1] + multi[:2]:
             add("single", "gz-big:" + label, {"in.fastq.gz": bad}, refs["single-gz-big"]["argv"], cores, rng.choice([600, 1000, None]), "single-gz-big", None)
+    # ---- output through an external compressor (.xz) on several cores, input of several chunks whose results exceed a pipe buffer,
+    # a malformed record in the first chunk: the error must end the run (workers that keep pipes to the compressor open must not
+    # keep the main process waiting)
+    xrecs = make_records(rng, 12000 if ctx.quick else 30000, "x")
+    xplain = fastq(xrecs)
+    refs["single-xz-out"] = {"files": {"in.fastq": xplain}, "argv": lambda d: ["-a", ADAPTER, "-m", "25", "-o", os.path.join(d, "out.fastq.xz"), os.path.join(d, "in.fastq")]}
+    xl = xplain.split(b"\n")
+    for k in ([3] if ctx.quick else [3, 40, 700]):
+        bad_l = list(xl)
+        bad_l[4 * k + 3] = bad_l[4 * k + 3][:-2]
+        bad = b"\n".join(bad_l)
+        if well_formed_file("in.fastq", bad) is None:
+            for cores in ([2] if ctx.quick else [1, 2, 3]):
+                add("single", "xz-out:record%d:quality-short" % k, {"in.fastq": bad}, refs["single-xz-out"]["argv"], cores, 300000, "single-xz-out", None)
     # ---- paired, two files and interleaved
     r1 = make_records(rng, nrec)
     r2 = [(a[0], b[1], b[2]) for a, b in zip(r1, make_records(rng, nrec))]
